@@ -46,6 +46,8 @@ def plan(tier, seed):
                 o['wca'] = pick(scen.WCA['plain_lead'] + [-2] * 0)
             else:
                 o['wca'] = pick(scen.WCA['plain_nolead'])
+            if kind != 'gcacgmm' and len(o['wca']) == 1 and rng.uniform() < 0.3:
+                o['wca_int'] = True          # plain-int spelling of the tied axis
             o['saliency'] = pick(['none', 'pos', 'wide', 'wide', 'int', 'tiny'] + (['tiny'] * 2 if kind == 'cwmm' else []))
             o['saliency_slice_scale'] = bool(rng.integers(0, 2))
             tied = bool(lead) and -3 in o['wca']
